@@ -1,7 +1,7 @@
 import ScriggoV.Model.Frames
 import ScriggoV.Spec.GoDefer
 /-! line protocol of C12:
-  `frames <fuel> P <n> <len> <instr>… …`   → `ok out=<events> res=<outcome>`  (Model/Frames.lean)
+  `frames <fuel> P <n> <len> <instr>… … [# <rendering styles>]` → `ok out=<events> res=<outcome>`  (Model/Frames.lean)
   `go     <fuel> P …`                      → the same for Spec/GoDefer.lean
   `walk <new|old> <chain oldest first, e.g. 3r,5 or ->` → `ok <chain>` | `err <bad>` | `ok loop`
 instructions: `c f` call, `t f` tail call, `d f` defer, `dr` defer recover(), `r` return, `p v` panic,
@@ -44,7 +44,8 @@ def parseFuncs : Nat → List String → Option (Prog × List String)
 def parseProg : List String → Option Prog
   | "P" :: n :: ws => do
     let n ← n.toNat?
-    let (p, rest) ← parseFuncs n ws
+    -- what follows `#` says how the harness wrote the program as Go source; not part of the program
+    let (p, rest) ← parseFuncs n (ws.takeWhile (· ≠ "#"))
     if rest.isEmpty then some p else none
   | _ => none
 
